@@ -8,7 +8,7 @@ From MMD.lib Require Import MiniC BlockComp.
 From MMD.gen Require Import ParserTables Bounds.
 From MMD.gen Require Import Escapers CharTable.
 From MMD.model Require Import DStringModel DStringSpec PoolModel TreeCheck LabelModel CriticModel TranscludeModel MetaModel AnchorModel HeaderIdModel OpmlModel MetaSwitchModel TableAlignModel SpecRender BlockLang TokenHeap PairMatch.
-From MMD.proofs Require Import EscaperProofs.
+From MMD.proofs Require Import EscaperProofs PairMatchProofs.
 Extraction Language OCaml.
 Extraction "mmdmodel.ml"
   Bytes.find_sub
@@ -30,4 +30,5 @@ Extraction "mmdmodel.ml"
   TableAlignModel.record TableAlignModel.colspec Bounds.table_alignment_size Bounds.record_limit
   SpecRender.render_doc SpecRender.spell_doc
   BlockComp.bc_F BlockComp.drun BlockLang.dstep BlockLang.FIN ParserTables.NT_block
-  TokenHeap.th_run PairMatch.pm_run.
+  TokenHeap.th_run PairMatch.pm_run
+  PairMatchProofs.dl_check PairMatchProofs.msym_check PairMatchProofs.order_check.
